@@ -170,8 +170,10 @@ def make_case(ctx, g):
     w = World()
     fails = []
     flags = set()
-    b = DocBuilder(g, w, repeat_id=0.6, malformed=0.0, anon=0.3, multi=0.1)
+    b = DocBuilder(g, w, repeat_id=0.6, malformed=0.0, anon=0.3, multi=0.1, twins=0.2, redefault=0.25, defaults=0.5)
     d, scopes = b.random_document(n_records=g.rng.randint(2, 9))
+    if g.chance(0.2) and b.cross_kind_cluster(g.choice(scopes)):
+        flags.add("one-identifier-two-merged-kinds")
     if g.chance(0.3):
         # history: a bundle is asked for names that so far exist only in the document (a lookup must not change anything),
         # then gets a record of its own under such a name
